@@ -49,9 +49,27 @@ class tgt_lock:
         import fcntl
         self.fh = open(self.path, "w")
         fcntl.flock(self.fh, fcntl.LOCK_EX)
+        cap_target_dir(self.path[:-len(".lock")])
 
     def __exit__(self, *a):
         self.fh.close()
+
+
+TGT_CAP = 4 << 30
+
+
+def cap_target_dir(tgt):
+    """A shared target directory collects one set of artefacts per analysed copy of the repository (scratch copies of
+    the self-tests have their own paths); it is a cache and is emptied when it outgrows TGT_CAP (holder of the lock only)."""
+    if not os.path.isdir(tgt):
+        return
+    try:
+        out = subprocess.run(["du", "-sb", tgt], stdout=subprocess.PIPE, stderr=subprocess.DEVNULL, text=True).stdout.split()
+        if out and int(out[0]) > TGT_CAP:
+            import shutil
+            shutil.rmtree(tgt, ignore_errors=True)
+    except (ValueError, OSError):
+        pass
 
 
 def cargo_check(d, tgt_name, args, toolchain=None):
